@@ -194,7 +194,14 @@ func (c *Ctx) Do(spec func() any, check func() *Violation) {
 	if v.Key == "" {
 		v.Key = KeyOf(c.Prop.ID, string(v.Spec))
 	}
-	if len(c.Violations) < 40 {
+	// keep a few per kind of failure so that one frequent defect cannot hide another
+	same := 0
+	for _, o := range c.Violations {
+		if o.What == v.What {
+			same++
+		}
+	}
+	if same < 6 && len(c.Violations) < 80 {
 		c.Violations = append(c.Violations, *v)
 	} else {
 		c.Note("violations_not_listed", 1)
